@@ -428,11 +428,18 @@ def _t_try(line, arg=None):
     return re.sub(r'\b(\w+)\.try_into\(\) == Ok\(([^()]+)\)', r'ol_uint_eq_u64(\1, \2)', line)
 
 
-TRANSFORMERS = [('Rneut', _t_neut), ('Rzn', _t_zn), ('Rtup', _t_rtup), ('Rmul', _t_mulassign), ('Rconst', _t_one_const), ('Rref', _t_rref), ('Rtry', _t_try), ('Rverb', _t_verb), ('Rvec', _t_rvec), ('Rone', _t_one_shl), ('Rdiv', _t_opassign), ('R10', _t_r10), ('Rit', _t_forit), ('Rfor', _t_forname), ('R8', _t_r8), ('Rsort', _t_sort), ('R7', _t_r7), ('R1', _t_r1), ('R1u', _t_unsafe), ('ret', _t_ret), ('brace', _t_brace)]
+def _t_egcd(line, arg=None):
+    """Regcd: `Integer::extended_gcd(&(A as T), &(B as T))` (T = i64 / i128) -> `ol_egcd_T(A as T, B as T)`: provided trait
+    methods of foreign traits cannot be given a specification; outlined with the assumed contract of Euclid's extended
+    algorithm on non-negative operands"""
+    return re.sub(r'Integer::extended_gcd\(&\((\w+) as (i64|i128)\), &\((\w+) as (i64|i128)\)\)', r'ol_egcd_\2(\1 as \2, \3 as \4)', line)
+
+
+TRANSFORMERS = [('Regcd', _t_egcd), ('Rneut', _t_neut), ('Rzn', _t_zn), ('Rtup', _t_rtup), ('Rmul', _t_mulassign), ('Rconst', _t_one_const), ('Rref', _t_rref), ('Rtry', _t_try), ('Rverb', _t_verb), ('Rvec', _t_rvec), ('Rone', _t_one_shl), ('Rdiv', _t_opassign), ('R10', _t_r10), ('Rit', _t_forit), ('Rfor', _t_forname), ('R8', _t_r8), ('Rsort', _t_sort), ('R7', _t_r7), ('R1', _t_r1), ('R1u', _t_unsafe), ('ret', _t_ret), ('brace', _t_brace)]
 
 
 # line-local normalisations that need no accompanying ghost text: applied to current lines that have no pinned counterpart
-FREE = ('R1', 'R1u', 'Rconst', 'Rmul', 'Rdiv', 'Rverb', 'Rtry', 'Rone', 'Rsort', 'R8', 'Rzn', 'Rneut')
+FREE = ('Regcd', 'R1', 'R1u', 'Rconst', 'Rmul', 'Rdiv', 'Rverb', 'Rtry', 'Rone', 'Rsort', 'R8', 'Rzn', 'Rneut')
 
 
 def free_normalise(line):
@@ -495,6 +502,7 @@ def key(line):
         return '<<brace>>'
     s = re.sub(r'ol_uint_one_shl\(([^()]*)\)', r'Uint::ONE << (\1)', s)
     s = s.replace('ol_verbosity(prefs)', 'prefs.verbosity')
+    s = re.sub(r'ol_egcd_(i64|i128)\((\w+) as (i64|i128), (\w+) as (i64|i128)\)', r'Integer::extended_gcd(&(\2 as \3), &(\4 as \5))', s)
     s = s.replace('ol_zn_n(zn)', 'zn.n')
     s = s.replace('ol_neutral128(self)', 'Point(M128(0), self.one, self.one)')
     s = re.sub(r'ol_uint_eq_u64\((\w+), ([^()]+)\)', r'\1.try_into() == Ok(\2)', s)
